@@ -72,3 +72,31 @@ Theorem C01_names_total_bytes : forall s,
   /\ (parse_pwb s = Panic <-> exists c d, s = [80; 67; c; d] /\ is_cont c = true).
 Proof. exact names_total_bytes_lemma. Qed.
 Print Assumptions C01_names_total_bytes.
+
+(* ===== Chronobox FIFO at the combinator level: pins imported from Codec/ChronoWinnow_pins.v ===== *)
+From AG Require Import Codec.Winnow Codec.ChronoWinnow Codec.ChronoWinnow_proofs.
+
+(* totality at the combinator level: no assert, no ChannelId unwrap, no final PResult::unwrap panic, and the
+   fuel never runs out *)
+Theorem C01_cbw_no_panic : forall dbg l,
+  chronobox_fifo_winnow dbg l <> PPanic /\ chronobox_fifo_winnow dbg l <> PFuel.
+Proof. exact cbw_no_panic. Qed.
+Print Assumptions C01_cbw_no_panic.
+
+(* the element parsers only succeed or Backtrack (never Cut, never panic) ... *)
+Theorem C01_cbw_elems_never_cut : forall l,
+  ok_or_back (fifo_entry l) /\ ok_or_back (scalers_block l).
+Proof. exact elems_ok_or_back. Qed.
+Print Assumptions C01_cbw_elems_never_cut.
+
+(* ... and the whole parser returns Ok before `.unwrap()`: "this parser always succeeds" (chronobox.rs:171) *)
+Theorem C01_cbw_never_cut : forall dbg fuel l, (length l < fuel)%nat ->
+  exists es r, chronobox_fifo_parser dbg fuel l = POk es r.
+Proof. exact cbw_never_cut. Qed.
+Print Assumptions C01_cbw_never_cut.
+
+(* debug_assertions on (assert panics) and off (assert is a Cut error, then unwrap panics) agree *)
+Theorem C01_cbw_dbg_irrelevant : forall l, chronobox_fifo_winnow true l = chronobox_fifo_winnow false l.
+Proof. exact cbw_dbg_irrelevant. Qed.
+Print Assumptions C01_cbw_dbg_irrelevant.
+
